@@ -2,7 +2,8 @@
 
 Space: every operand list of length 0..n over the shapes
   P plain variable | E effectful expression (log i a) | S statement-producing
-  (do (setv t (log i a)) t) | NA (and E E) | NO (or E E) | NS (or E S)
+  (do (setv t (log i a)) t) | V value-less statement (setv t (log i a)), whose
+  value is None | NA (and E E) | NO (or E E) | NS (or E S) | EA (and) | EO (or)
 for both operators, each compiled ONCE by the real compiler as a function of
 its operand values, in every context: value position, (setv a_k (op ...)) and
 (setx a_k (op ...)) for every operand variable a_k (the assignment target is
@@ -30,12 +31,12 @@ ASSUMPTIONS = [
     "and/or operand order is documented (left to right, short-circuit), so the trace comparison is exact",
 ]
 
-SHAPES = ["P", "E", "S", "NA", "NO", "NS"]
-NPARAMS = {"P": 1, "E": 1, "S": 1, "NA": 2, "NO": 2, "NS": 2}
+SHAPES = ["P", "E", "S", "V", "NA", "NO", "NS", "EA", "EO"]
+NPARAMS = {"P": 1, "E": 1, "S": 1, "V": 1, "NA": 2, "NO": 2, "NS": 2, "EA": 0, "EO": 0}
 
 BOUNDS = {
-    "quick": dict(runs=[(SHAPES, 4)], shards=64),
-    "thorough": dict(runs=[(SHAPES, 5), (["P", "E", "S"], 8)], shards=512),
+    "quick": dict(runs=[(SHAPES, 3), (["P", "E", "S", "V", "NS", "EA"], 4)], shards=64),
+    "thorough": dict(runs=[(SHAPES, 4), (["P", "E", "S", "V", "NS", "EA"], 5), (["P", "E", "S"], 8)], shards=512),
 }
 TIME_CAP = {"quick": 900, "thorough": 5400}
 
@@ -76,6 +77,12 @@ def build(op, shapes):
             kids.append(("log", next(site), next(p)))
         elif sh == "S":
             kids.append(("stmt", next(site), next(p)))
+        elif sh == "V":
+            kids.append(("vstmt", next(site), next(p)))
+        elif sh == "EA":
+            kids.append(("and", []))
+        elif sh == "EO":
+            kids.append(("or", []))
         elif sh in ("NA", "NO"):
             kids.append(("and" if sh == "NA" else "or", [("log", next(site), next(p)), ("log", next(site), next(p))]))
         elif sh == "NS":
@@ -90,6 +97,8 @@ def render(t):
         return f"(log {t[1]} a{t[2]})"
     if t[0] == "stmt":
         return f"(do (setv t{t[1]} (log {t[1]} a{t[2]})) t{t[1]})"
+    if t[0] == "vstmt":
+        return f"(setv t{t[1]} (log {t[1]} a{t[2]}))"
     return "(" + " ".join([t[0]] + [render(k) for k in t[1]]) + ")"
 
 
@@ -100,6 +109,9 @@ def ref_eval(t, vals, trace):
     if t[0] in ("log", "stmt"):
         trace.append(t[1])
         return vals[t[2]]
+    if t[0] == "vstmt":
+        trace.append(t[1])
+        return None           # (setv ...) evaluates its value form and returns None
     if t[0] == "and":
         v = True
         for k in t[1]:
@@ -202,7 +214,7 @@ def _all_sites(t):
     out = []
 
     def w(t):
-        if t[0] in ("log", "stmt"):
+        if t[0] in ("log", "stmt", "vstmt"):
             out.append(t[1])
         elif t[0] in ("and", "or"):
             for k in t[1]:
@@ -226,7 +238,7 @@ def run_shard(shard, tier):
     for idx in range(lo, hi):
         shapes = lists[idx]
         nparams = sum(NPARAMS[s] for s in shapes)
-        nontriv = any(s != "P" and s != "E" for s in shapes)
+        nontriv = any(s not in ("P", "E") for s in shapes)
         for op in ("and", "or"):
             for ctx in contexts(nparams):
                 acc.states += 1
